@@ -149,6 +149,259 @@ def extract() -> dict:
     return out
 
 
+# ------------------------------------------------------------------------------------------------------------
+# branch structure of gather_token, of the verify / get_root_path loop body and of receive_content -> decision trees
+# ------------------------------------------------------------------------------------------------------------
+def _src(n) -> str:
+    return ast.unparse(n)
+
+
+class _Tree:
+    """statement lists -> Lean DTree terms.  Subset: `if`, `return`, `break`, plain calls / assignments that are
+    recognised as one of the actions, logging calls; anything else raises TranslatorError."""
+
+    def __init__(self, fn: ast.FunctionDef, tok: str, mode: str):
+        self.fn, self.tok, self.mode = fn, tok, mode
+        self.aliases: dict[str, str] = {}      # local name -> source text it stands for
+        self.stored: set[str] = set()          # names bound to self.elements[token.get_hash()]
+        self.cap_cmp = None
+        self.pop_last = None
+
+    def norm(self, n) -> str:
+        t = _src(n)
+        for k, v in self.aliases.items():
+            t = re.sub(rf"(?<![\w.]){k}\b", v, t)
+        return t.replace(" ", "")
+
+    # ---- conditions --------------------------------------------------------------------------------------
+    def cond(self, e) -> str:
+        if isinstance(e, ast.BoolOp):
+            op = "and" if isinstance(e.op, ast.And) else "or"
+            out = self.cond(e.values[0])
+            for v in e.values[1:]:
+                out = f"(.{op} {out} {self.cond(v)})"
+            return out
+        if isinstance(e, ast.UnaryOp) and isinstance(e.op, ast.Not):
+            return f"(.not {self.cond(e.operand)})"
+        if isinstance(e, ast.Compare) and len(e.ops) > 1:       # a == b == c
+            parts = [e.left] + list(e.comparators)
+            out = None
+            for k, op in enumerate(e.ops):
+                c = self.cond(ast.Compare(left=parts[k], ops=[op], comparators=[parts[k + 1]]))
+                out = c if out is None else f"(.and {out} {c})"
+            return out
+        if isinstance(e, ast.Compare) and len(e.ops) == 1:
+            l, r, op = self.norm(e.left), self.norm(e.comparators[0]), e.ops[0]
+            tok = self.tok
+            glen = "len(self.genesis_hash)"
+
+            def signed(atom, positive):
+                return f"(.atom .{atom})" if positive else f"(.not (.atom .{atom}))"
+            pair = {l, r}
+            for fld, atom in (("previous_token_hash", "prevLenNe"), ("content_hash", "chashLenNe")):
+                if pair == {f"len({tok}.{fld})", glen} and isinstance(op, (ast.NotEq, ast.Eq)):
+                    return signed(atom, isinstance(op, ast.NotEq))
+            if pair == {f"{tok}.previous_token_hash", "self.genesis_hash"} and isinstance(op, (ast.NotEq, ast.Eq)):
+                return signed("prevIsGenesis", isinstance(op, ast.Eq))
+            if r == "self.elements" and isinstance(op, (ast.In, ast.NotIn)):
+                if l == f"{tok}.previous_token_hash":
+                    return signed("prevInElements", isinstance(op, ast.In))
+                if l == f"{tok}.get_hash()":
+                    return signed("hashInElements", isinstance(op, ast.In))
+            if r == "None" and isinstance(op, (ast.Is, ast.IsNot)):
+                if l == f"{tok}.content":
+                    return signed("tokenContentNone", isinstance(op, ast.Is))
+                if l.endswith(".content") and (l[:-8] in self.stored or l[:-8] == f"self.elements[{tok}.get_hash()]"):
+                    return signed("storedContentNone", isinstance(op, ast.Is))
+            if self.mode == "receive" and isinstance(op, (ast.Eq, ast.NotEq)) and "self.content_hash" in pair:
+                other = (pair - {"self.content_hash"}).pop()
+                if other in ("hashlib.sha3_256(content).digest()", "sha3_256(content).digest()"):
+                    return signed("contentHashMatches", isinstance(op, ast.Eq))
+        if isinstance(e, ast.Call) and self.norm(e) == f"{self.tok}.verify(self.public_key)":
+            return "(.atom .verify)"
+        raise TranslatorError(f"{self.fn.name}: condition outside the subset: {_src(e)[:80]}")
+
+    # ---- statements --------------------------------------------------------------------------------------
+    def block(self, stmts: list, st: dict) -> str:
+        st = dict(st)
+        for k, s in enumerate(stmts):
+            rest = stmts[k + 1:]
+            if isinstance(s, ast.Expr) and isinstance(s.value, ast.Constant):      # docstring
+                continue
+            if isinstance(s, (ast.If, ast.While)) and "len(self.unchained)" in self.norm(s.test) and st.get("parked"):
+                self.waiting_bound(s)                                                 # the bound of the waiting area
+                continue
+            if isinstance(s, ast.If):
+                return f"(.ite {self.cond(s.test)} {self.block(s.body + rest, st)} {self.block(s.orelse + rest, st)})"
+            if isinstance(s, ast.Return):
+                return f"(.leaf .{self.leaf(s, st)})"
+            if isinstance(s, ast.Break):
+                return "(.leaf .brk)"
+            self.simple(s, st)
+        if self.mode == "loop":
+            if st.get("stepped"):
+                return "(.leaf .step)"
+            raise TranslatorError(f"{self.fn.name}: loop body ends without moving to the parent")
+        return f"(.leaf .{'park' if st.get('parked') else 'retNone'})"
+
+    def simple(self, s, st):
+        t = self.norm(s)
+        tok = self.tok
+        if isinstance(s, ast.Expr) and isinstance(s.value, ast.Call):
+            if t.startswith("self._logger."):
+                return
+            if t == f"self._append_chain_reaction_token({tok})":
+                st["chained"] = True
+                return
+            m = re.fullmatch(r"(.+)\.receive_content\(" + re.escape(tok) + r"\.content\)", t)
+            if m and (m.group(1) in self.stored or m.group(1) == f"self.elements[{tok}.get_hash()]"):
+                st["shadow"] = "shadowReceive"
+                return
+        if isinstance(s, (ast.Assign, ast.AnnAssign, ast.AugAssign)):
+            tgt = s.targets[0] if isinstance(s, ast.Assign) else s.target
+            val = self.norm(s.value) if s.value is not None else ""
+            if isinstance(tgt, ast.Name):
+                if self.mode == "loop" and tgt.id == "current":
+                    if val != "self.elements[current.previous_token_hash]":
+                        raise TranslatorError(f"{self.fn.name}: the loop moves to {val}, not to the stored parent")
+                    st["stepped"] = True
+                    return
+                if self.mode == "loop" and tgt.id in ("steps", "path"):
+                    return
+                if val == f"self.elements[{tok}.get_hash()]":
+                    self.stored.add(tgt.id)
+                    return
+                if self.mode == "receive" and val in ("hashlib.sha3_256(content).digest()", "sha3_256(content).digest()"):
+                    self.aliases[tgt.id] = _src(s.value)
+                    return
+                if val in ("len(self.genesis_hash)", f"{tok}.previous_token_hash", f"{tok}.get_hash()",
+                           f"{tok}.content_hash", "self.genesis_hash", f"{tok}.content"):
+                    self.aliases[tgt.id] = val
+                    return
+            tt = self.norm(tgt)
+            if tt == f"self.unchained[{tok}]" and val == "None":
+                st["parked"] = True
+                return
+            if tt.endswith(".content") and val == f"{tok}.content" and \
+                    (tt[:-8] in self.stored or tt[:-8] == f"self.elements[{tok}.get_hash()]"):
+                st["shadow"] = "shadowAssign"
+                return
+            if self.mode == "receive" and tt == "self.content" and val == "content":
+                st["set"] = True
+                return
+        raise TranslatorError(f"{self.fn.name}: statement outside the subset: {_src(s)[:80]}")
+
+    def leaf(self, s: ast.Return, st) -> str:
+        v = "None" if s.value is None else self.norm(s.value)
+        if self.mode == "gather":
+            if v == "None":
+                if st.get("chained") or st.get("shadow"):
+                    raise TranslatorError("gather_token: returns None after changing the tree")
+                return "park" if st.get("parked") else "retNone"
+            if v in self.stored or v == f"self.elements[{self.tok}.get_hash()]":
+                return st.get("shadow", "shadowKeep")
+            if v == self.tok and st.get("chained"):
+                return "chain"
+        elif self.mode == "loop":
+            if v in ("False", "[]"):
+                return "fail"
+        elif self.mode == "receive":
+            if v == "True" and st.get("set"):
+                return "setContent"
+            if v == "False" and not st.get("set"):
+                return "retFalse"
+        raise TranslatorError(f"{self.fn.name}: return outside the subset: return {v}")
+
+    def waiting_bound(self, s):
+        t = s.test
+        ok = (isinstance(t, ast.Compare) and len(t.ops) == 1 and self.norm(t.left) == "len(self.unchained)"
+              and self.norm(t.comparators[0]) == "self.unchained_max_size")
+        ops = {ast.Gt: "gt", ast.GtE: "ge", ast.Lt: "lt", ast.LtE: "le", ast.Eq: "eq", ast.NotEq: "ne"}
+        if not ok or type(t.ops[0]) not in ops or s.orelse or len(s.body) != 1:
+            raise TranslatorError("gather_token: expected `if len(self.unchained) > self.unchained_max_size: <evict one>`")
+        self.cap_cmp = ops[type(t.ops[0])]
+        b = self.norm(s.body[0])
+        if b in ("self.unchained.popitem(False)", "self.unchained.popitem(last=False)"):
+            self.pop_last = False
+        elif b in ("self.unchained.popitem()", "self.unchained.popitem(True)", "self.unchained.popitem(last=True)"):
+            self.pop_last = True
+        elif b in ("delself.unchained[next(iter(self.unchained))]", "self.unchained.pop(next(iter(self.unchained)))"):
+            self.pop_last = False
+        else:
+            raise TranslatorError(f"gather_token: eviction statement outside the subset: {_src(s.body[0])[:60]}")
+
+
+def trees() -> dict:
+    tree_mod = ast.parse((REPO / TREE).read_text())
+    token_mod = ast.parse((REPO / TOKEN).read_text())
+    tt, tk = _cls(tree_mod, "TokenTree"), _cls(token_mod, "Token")
+    out = {}
+    g = _Tree(_fn(tt, "gather_token"), "token", "gather")
+    out["gatherTree"] = g.block(g.fn.body, {})
+    if g.cap_cmp is None:
+        raise TranslatorError("gather_token: no bound on the waiting area found")
+    out["capCmp"], out["popLast"] = g.cap_cmp, g.pop_last
+    for name in ("verify", "get_root_path"):
+        fn = _fn(tt, name)
+        loops = [s for s in fn.body if isinstance(s, ast.While)]
+        if name == "verify" and not loops:      # verify written as "get_root_path is not empty"
+            rets = [s for s in fn.body if isinstance(s, ast.Return)]
+            txt = _src(rets[0].value).replace(" ", "") if len(rets) == 1 else ""
+            call = r"self\.get_root_path\(token,(maxdepth=)?maxdepth\)"
+            if re.fullmatch(rf"(bool\({call}\)|len\({call}\)>0|{call}!=\[\])", txt):
+                out["verifyLoopTree"] = None
+                continue
+        if len(loops) != 1:
+            raise TranslatorError(f"{name}: expected exactly one while loop")
+        lt = _Tree(fn, "current", "loop")
+        out[f"{'verify' if name == 'verify' else 'rootPath'}LoopTree"] = lt.block(loops[0].body, {})
+        # the loop has to start at the queried token
+        starts = [s for s in fn.body if isinstance(s, ast.Assign) and isinstance(s.targets[0], ast.Name)
+                  and s.targets[0].id == "current"]
+        if len(starts) != 1 or not isinstance(starts[0].value, ast.Name) or starts[0].value.id != "token":
+            raise TranslatorError(f"{name}: expected `current = token` before the loop")
+    r = _Tree(_fn(tk, "receive_content"), "self", "receive")
+    out["receiveTree"] = r.block(r.fn.body, {})
+    return out
+
+
+def translate_trees() -> tuple[str, dict]:
+    t = trees()
+    if t["verifyLoopTree"] is None:
+        t["verifyLoopTree"] = t["rootPathLoopTree"]
+    src = f"""/-
+  GENERATED by tools/gen_c16.py from {TREE} and {TOKEN} — do not edit.
+  Branch structure of the source as decision trees (language: Ipv8/C16/Decision.lean).
+-/
+import Ipv8.C16.Decision
+namespace Ipv8.C16.Gen
+open Ipv8.C16
+
+/-- TokenTree.gather_token -/
+def gatherTree : DTree :=
+  {t['gatherTree']}
+
+/-- `if len(self.unchained) <cmp> self.unchained_max_size: <evict>`; popLast = the NEWEST entry is evicted -/
+def capCmp : Cmp := .{t['capCmp']}
+def popLast : Bool := {'true' if t['popLast'] else 'false'}
+
+/-- one iteration of the `while` loop of TokenTree.verify -/
+def verifyLoopTree : DTree :=
+  {t['verifyLoopTree']}
+
+/-- one iteration of the `while` loop of TokenTree.get_root_path -/
+def rootPathLoopTree : DTree :=
+  {t['rootPathLoopTree']}
+
+/-- Token.receive_content -/
+def receiveTree : DTree :=
+  {t['receiveTree']}
+
+end Ipv8.C16.Gen
+"""
+    return src, t
+
+
 def translate() -> tuple[str, dict]:
     c = extract()
     src = f"""/-
@@ -173,3 +426,4 @@ end Ipv8.C16.Gen
 
 if __name__ == "__main__":
     print(translate()[0])
+    print(translate_trees()[0])
